@@ -811,8 +811,8 @@ func (fw *fsmWorld) probeOpen(d *Disk) (map[datatransfer.ChannelID]Snap, bool) {
 		return nil, false
 	}
 	out := map[datatransfer.ChannelID]Snap{}
-	for id, st := range m {
-		out[id] = TakeSnap(fw.r, "InProgress-after-reopen", st)
+	for _, id := range sortedBy(m, chidStr) {
+		out[id] = TakeSnap(fw.r, "InProgress-after-reopen", m[id])
 	}
 	_ = cs.Stop(context.Background())
 	return out, true
@@ -891,7 +891,7 @@ func (fw *fsmWorld) checkBoundary(b int, lastK map[datatransfer.ChannelID]int) {
 			lastK[c.chid] = found
 		}
 	}
-	for id := range states {
+	for _, id := range sortedBy(states, chidStr) {
 		known := false
 		for _, c := range fw.chans {
 			if c.chid == id {
@@ -1146,12 +1146,15 @@ func (fw *fsmWorld) sentHistoryOracle(c *fsmChan, evs []*evRec) {
 	for _, k := range c.sent {
 		sentTot[opCode[k.kind]]++
 	}
-	for code, n := range want {
+	codeStr := func(c datatransfer.EventCode) string { return fmt.Sprintf("%04d", int(c)) }
+	for _, code := range sortedBy(want, codeStr) {
+		n := want[code]
 		if got[code] < n && !fw.crashed {
 			r.Failf("C17", "applied-event-not-announced", datatransfer.Events[code], "channel %d: %d %s events were applied before any ending event but only %d announced", c.chid.ID, n, datatransfer.Events[code], got[code])
 		}
 	}
-	for code, n := range got {
+	for _, code := range sortedBy(got, codeStr) {
+		n := got[code]
 		if !internalCodes[code] && n > sentTot[code] {
 			r.Failf("C17", "event-announced-twice", datatransfer.Events[code], "channel %d: %s announced %d times, sent %d times", c.chid.ID, datatransfer.Events[code], n, sentTot[code])
 		}
